@@ -12,6 +12,7 @@ The check function is evaluated on every state reached.
 """
 
 import contextlib
+import copy
 import io
 import warnings
 
@@ -218,6 +219,12 @@ def op_menu(tier, max_size):
         ("q_contract", dict()),
         ("q_stats", dict()),
         ("q_path", dict()),
+        # non-inplace call whose result is discarded: the source must stay intact
+        ("restore_ind", dict(discard=True)),
+        ("unslice_all", dict(discard=True)),
+        ("slice_ind", dict(discard=True)),
+        ("reconf", dict(select="max", search="bfs", subtree_size=3, discard=True)),
+        ("anneal", dict(tsteps=1, numiter=1, discard=True)),
     ]
     if tier != "quick":
         menu += [
@@ -231,6 +238,11 @@ def op_menu(tier, max_size):
             ("sort_inds", dict(priority="root", moc=False)),
             ("q_contract", dict(prefer_einsum=True)),
             ("q_print", dict()),
+            ("project_ind", dict(discard=True)),
+            ("unslice_rand", dict(discard=True)),
+            ("slice", dict(target_slices=2, discard=True)),
+            ("sort_inds", dict(priority="flops", discard=True)),
+            ("copy", dict(discard=True)),
         ]
     return menu
 
@@ -277,9 +289,14 @@ def explore_histories(rec, initial, menu, K, check_fn, env, max_states_per_level
                     with shadowed_environment() as g:
                         env["global_rng"] = g._rng
                         p = dict(params)
-                        t0 = tree0.copy()
+                        # harness-level isolation must not rely on the code under test: deep copy
+                        t0 = copy.deepcopy(tree0)
                         try:
                             tree, rng = OPS[name](t0, env, p)
+                            if p.get("discard"):
+                                # non-inplace use: the result is dropped and work continues with the
+                                # SOURCE tree, which must be untouched
+                                tree = t0
                         except (symx.PathAbort, symx.Unsupported, symx.Budget):
                             raise
                         except Exception as e:  # noqa
@@ -359,7 +376,9 @@ def replay_history(tree, hist, arrays=None):
             g._rng = stubs.ScriptedRng(scripts["global"])
             U.random = g
         try:
-            tree = _replay_op(tree, name, p, rng, env)
+            res = _replay_op(tree, name, p, rng, env)
+            if not p.get("discard"):
+                tree = res
         finally:
             U.random = saved
     return tree
